@@ -320,8 +320,16 @@ def gen_c09(rng, tier):
         k = rng.choice([1, 2])
         leaf = {"t": "option", "e": {"t": "record", "keys": ["x", "y"][:k],
                                      "fields": [{"t": "option", "e": gen.P(rng.choice(INTS))} for _ in range(k)]}}
-    T = _lists(rng, cfg, depth, leafT=leaf, option_p=0.5)
-    if T["t"] != "option" and rng.random() < 0.5:
+    union_leaf = pop == "is_none" and rng.random() < 0.3
+    if union_leaf:
+        # the node at the axis is a union one of whose contents is option-type (hand-built layouts; from_iter puts the
+        # option outside the union)
+        leaf = {"t": "union", "arms": [{"t": "option", "e": gen.P(rng.choice(INTS))}, gen.P(rng.choice(["float64", "bool"]))]}
+        if rng.random() < 0.3:
+            leaf["arms"].append({"t": "option", "e": gen.P("complex128")})      # (arms of one depth: the axis is unambiguous)
+        rng.shuffle(leaf["arms"])
+    T = _lists(rng, cfg, depth, leafT=leaf, option_p=0.0 if union_leaf else 0.5)
+    if T["t"] != "option" and rng.random() < 0.5 and not (union_leaf and depth == 0):
         T = {"t": "option", "e": T}
     n = rng.choice([0, 1, 3, 5])
     vals = gen.gen_values(rng, T, n, cfg)
@@ -423,7 +431,54 @@ def run_c09(ctx, ak, P, case):
 
 # ====================================================================================================== C10
 
+def gen_c10_path(rng, tier):
+    """ak.with_field with a path of field names into nested records {id, a: {k, b: {x}}}"""
+    cfg = _cfg(tier, records=False)
+    n = rng.choice([0, 1, 2, 3, 5])
+    T = gen.P("int64")
+
+    def flat():
+        dt = rng.choice(["int64", "int32", "float64", "bool", "uint8"])
+        Tn = gen.P(dt)
+        vals = [gen.gen_value(rng, Tn, cfg) for _ in range(n)]
+        return {"T": Tn, "layout": gen.encode(rng, Tn, vals, "random", cfg)}
+    path = rng.choice([["a", "b", "c"], ["a", "b", "c"], ["a", "b", "x"], ["a", "c"], ["a", "k"], ["c"], ["id"], ["a", "b"]])
+    return {"pop": "with_field_path", "fields": [flat(), flat(), flat()], "new": flat(), "path": path,
+            "scalar_value": rng.choice([None, None, 7]), "as_tuple": rng.random() < 0.7}
+
+
+def run_c10_path(ctx, ak, P, case):
+    f_id, f_k, f_x = [f["layout"] for f in case["fields"]]
+    n = model.length(f_id)
+    vid, vk, vx = [model.value(f) for f in (f_id, f_k, f_x)]
+
+    def rec(keys, contents):
+        return {"c": "RecordArray", "length": n, "keys": keys, "contents": contents, "params": {}}
+    base_d = rec(["id", "a"], [f_id, rec(["k", "b"], [f_k, rec(["x"], [f_x])])])
+    path = case["path"]
+    newv = None if case["scalar_value"] is not None else model.value(case["new"]["layout"])
+    what = case["scalar_value"] if newv is None else P.array(case["new"]["layout"])
+    where = tuple(path) if (case["as_tuple"] or len(path) > 1) else path[0]
+    det = {"lane": "P", "op": {"op": "with_field_path"}, "where": path, "scalar": case["scalar_value"], "n": n}
+    ctx.cover("p_with_field_path", "/".join(path))
+    kind, got = _call(P, lambda: _sorted_keys(P.value(ak.with_field(P.array(base_d), what, where))))
+
+    def expected():
+        out = []
+        for i in range(n):
+            r = {"id": vid[i], "a": {"k": vk[i], "b": {"x": vx[i]}}}
+            at = r
+            for key in path[:-1]:
+                at = at[key]
+            at[path[-1]] = case["scalar_value"] if newv is None else newv[i]
+            out.append(r)
+        return _sorted_keys(out)
+    return _verdict(ctx, case, kind, got, expected, det)
+
+
 def gen_c10(rng, tier):
+    if rng.random() < 0.2:
+        return gen_c10_path(rng, tier)
     cfg = _cfg(tier, records=False)
     pop = rng.choice(["zip_unzip", "zip_unzip", "with_field", "with_field", "zip_depth"])
     depth = rng.choice([0, 1, 1, 2])
@@ -472,6 +527,8 @@ def _zipvals(vs, names, depth, istuple):
 
 def run_c10(ctx, ak, P, case):
     pop = case["pop"]
+    if pop == "with_field_path":
+        return run_c10_path(ctx, ak, P, case)
     vs = [model.value(f["layout"]) for f in case["fields"]]
     xs = [P.array(f["layout"]) for f in case["fields"]]
     names, istuple = case["names"], case["tuple"]
